@@ -1,5 +1,5 @@
 #!/bin/bash
-# Zero-alarm sweep: every quick check under many VERIF_SEED values.  usage: seed_sweep.sh <first> <last> [tier]
+# Zero-alarm sweep: every quick check under many VERIF_SEED values.  usage: [SWEEP_PROPS="C06 C16"] seed_sweep.sh <first> <last> [tier]
 # Meant for `vp run -- tools/seed_sweep.sh 1 20` (builds the simulator inside the snapshot).
 cd "$(dirname "$0")/.."
 export VERIF_DIR="$(pwd)"
@@ -14,7 +14,7 @@ fi
 (cd sim && CARGO_NET_OFFLINE=true cargo build --release --offline 2>&1 | tail -1)
 bad=0
 for seed in $(seq $1 $2); do
-  for p in $(python3 -c "import json;print(' '.join(c['property_id'] for c in json.load(open('MANIFEST.json'))['checks']))"); do
+  for p in ${SWEEP_PROPS:-$(python3 -c "import json;print(' '.join(c['property_id'] for c in json.load(open('MANIFEST.json'))['checks']))")}; do
     out=$(VERIF_SEED=$seed sim/target/release/rtmpsim check --property $p --tier $TIER --no-evidence 2>&1); code=$?
     if [ $code -ne 0 ]; then bad=$((bad+1)); echo "SEED $seed $p exit=$code"; echo "$out" | grep -E "violation:|VIOLATION|HARNESS|  " | head -8; fi
   done
